@@ -367,8 +367,10 @@ func genRange(c *ctx) {
 				}
 				continue
 			}
-			if c.rng.Intn(10) == 0 {
-				// time passes: less than, about, more than the lease time
+			if c.rng.Intn(10) == 0 && lease <= 1e9*1e9 {
+				// time passes: less than, about, more than the lease time (not with the boundary leases of 2^32 s: the
+				// harness reports times as nanoseconds since 1970 in an int64, which ends in the year 2262 - a first
+				// version aged such leases past it and raised a false alarm at seed 4)
 				ls := int(lease / 1e9)
 				s.exec(c, fmt.Sprintf("rage %d", []int{1, ls/2 + 1, ls + 1, 2*ls + 3}[c.rng.Intn(4)]))
 			}
